@@ -82,6 +82,7 @@ def check(ctx):
     tests = A.tests(lambda t: True)
     ctx.check(len(raises) == 3 and all(any(A.dominated_by_edge(dc, t, "F") for t in tests if A.dominated_by_edge([r], t, "T")) for r in raises),
               "T3-clone", ac, "Act.clone: three resolved-link guards precede the deep copy", "a resolved act would be deep-copied together with the objects it links")
+    _framing.act_clone_preserves_class(ctx, "T3-clone")
     rm = ctx.fn("framing", "Framer.resolveMoots")
     M = FuncView(ctx, rm)
     nm = [n for n in M.cfg.nodes if isinstance(n.ast, ast.Assign) and dotted(n.ast.targets[0]) == "name" and "join" in src(n.ast.value)]
